@@ -570,6 +570,12 @@ class Parser:
         else:
             if parsed_expr[0] == "!":  # negation; !EXPRESSION
                 return ("!", self.infix_to_prefix(parsed_expr[1]))
+            elif len(parsed_expr) > 3 and parsed_expr[1] in ("=", "!=", "<", "<=", ">", ">="):
+                # A comparison has exactly two symbol operands; "A = B = C" has no meaning in Kconfig.
+                raise KconfigError(
+                    f"{self.file_stack[-1]}:{self.kconfig.linenr}: chained comparison "
+                    f"'{' '.join(str(part) for part in parsed_expr)}' is not supported"
+                )
             elif len(parsed_expr) == 3:  # binary operation; OPERAND OPERATOR OPERAND
                 return (parsed_expr[1], self.infix_to_prefix(parsed_expr[0]), self.infix_to_prefix(parsed_expr[2]))
             elif (
